@@ -319,6 +319,40 @@ func NewOpLib() *OpLib {
 			{Signer: "t2", Msgs: []sdk.Msg{swapIn(w.A("t2"), "", C("uatom", 1e10), 1, rin(1, "uusdc"))}},
 		}
 	})
+	// a batch in which one request is accepted when sent but FAILS when the end-blocker executes it
+	// (its limit is a 99.9 % quote of its own dry run and an identical request of another sender is
+	// executed first), next to a valid request in the OPPOSITE direction, small or large: the
+	// end-blocker's pair logic meets "this one fails, its opposite partner succeeds"
+	for _, dir := range []struct{ n, in, out string }{{"usdc_atom", "uusdc", "uatom"}, {"atom_usdc", "uatom", "uusdc"}} {
+		for _, opp := range []string{"small", "large"} {
+			dir, opp := dir, opp
+			l.Add("swap_batch_tight_twice_"+dir.n+"_plus_opposite_"+opp+"_p1", "swap", 0, func(w *World, p *BlockPlan) {
+				// amounts worth about 5e10 uusdc (tight pair), 5e8 / 2.5e11 uusdc (opposite)
+				amt := map[string]int64{"uusdc": 5e10, "uatom": 1e10}
+				oppAmt := map[string]int64{"uusdc": 5e8, "uatom": 1e8}
+				if opp == "large" {
+					oppAmt = map[string]int64{"uusdc": 25e10, "uatom": 5e10}
+				}
+				c, _ := w.Ctx().CacheContext()
+				c = c.WithBlockHeight(w.Height() + 1).WithBlockTime(time.Unix(w.Env.Tm+5, 0).UTC())
+				lim := int64(1)
+				who := w.A("t1").Addr
+				b0 := w.App.BankKeeper.GetBalance(c, who, dir.out).Amount
+				m := swapIn(w.A("t1"), "", C(dir.in, amt[dir.in]), 1, rin(1, dir.out))
+				if _, err := w.App.MsgServiceRouter().Handler(m)(c, m); err == nil {
+					w.App.AmmKeeper.EndBlocker(c)
+					if got := w.App.BankKeeper.GetBalance(c, who, dir.out).Amount.Sub(b0); got.IsPositive() {
+						lim = got.MulRaw(999).QuoRaw(1000).Int64()
+					}
+				}
+				p.Txs = []PlannedTx{
+					{Signer: "t1", Msgs: []sdk.Msg{swapIn(w.A("t1"), "", C(dir.in, amt[dir.in]), lim, rin(1, dir.out))}},
+					{Signer: "t3", Msgs: []sdk.Msg{swapIn(w.A("t3"), "", C(dir.in, amt[dir.in]), lim, rin(1, dir.out))}},
+					{Signer: "t2", Msgs: []sdk.Msg{swapIn(w.A("t2"), "", C(dir.out, oppAmt[dir.out]), 1, rin(1, dir.in))}},
+				}
+			})
+		}
+	}
 	l.Add("swap_by_denom_p1", "swap", 0, func(w *World, p *BlockPlan) {
 		a := w.A("t1")
 		p.Txs = one("t1", &ammtypes.MsgSwapByDenom{Sender: a.Addr.String(), Amount: C("uusdc", 1e9), MinAmount: C("uatom", 1), DenomIn: "uusdc", DenomOut: "uatom"})
